@@ -76,6 +76,7 @@ def _work_rand(args):
             # the box (and its inverse) live in buffers that are refilled in place for every new box, as a trajectory
             # loop does: the distance must depend on the contents of the array, not on its identity
             Bbuf, Ibuf = np.zeros((3, 3)), np.zeros((3, 3))
+            last_kind = 'B'
             for _ in range(8):
                 ortho = rng.random() < 0.6
                 edges = rng.uniform(0.5, 20, 3)
@@ -101,6 +102,9 @@ def _work_rand(args):
                 p = rp.geometric_center
                 q = rq.geometric_center
                 try:
+                    # the first query after the buffers were refilled is of the same kind (same array object, same flag)
+                    # as the last query of the previous box
+                    d_first = float(rp.distance_to(rq, B)) if last_kind == 'B' else float(rp.distance_to(rq, Ibuf, inv=True))
                     d = float(rp.distance_to(rq, B))
                     fin = math.isfinite(d)
                     tol = 1e-9 * max(1.0, float(edges.max()) * far)
@@ -133,6 +137,9 @@ def _work_rand(args):
                     okp &= abs(float(rp.distance_to(qa, Ibuf, inv=True)) - d) <= tol
                     okp &= abs(float(rp.distance_to(qa)) - float(rp.distance_to(rq))) <= tol
                     okp &= bool((qa == np.array(q, dtype=float)).all())
+                    last_kind = 'B' if rng.random() < 0.5 else 'I'
+                    d_last = float(rp.distance_to(rq, B)) if last_kind == 'B' else float(rp.distance_to(rq, Ibuf, inv=True))
+                    okp &= abs(d_first - d) <= tol and abs(d_last - d) <= tol
                     e['res_point'] = bool(okp)
                     e['value'] = d
                 except Exception as exc:
